@@ -280,7 +280,15 @@ class MultiName(object):
                 allnames.extend(n.alt_names)
             else:
                 allnames.append(n)
-        self.alt_names = list(set(allnames))
+        # unique alternatives in source order (the undefined marker, located at (0, 0), goes first):
+        # a set of identity-hashed names would make the order depend on memory addresses
+        seen = set()
+        self.alt_names = []
+        for n in allnames:
+            if n not in seen:
+                seen.add(n)
+                self.alt_names.append(n)
+        self.alt_names.sort(key=lambda n: getattr(n, 'declared_at', n.location))
         self.name = self.alt_names[0].name
 
     def __repr__(self):  # type: () -> str
